@@ -92,14 +92,14 @@ fn agent_plan(profile: &'static str, quick: u64, thorough_runs: u64, thorough: b
 
 pub fn plan(prop: &str, thorough: bool) -> Option<Plan> {
     Some(match prop {
-        "C05" => agent_plan("balanced", 500_000, 10_000_000, thorough, vec!["probe.two_due_at_same_poll", "probe.response_after_timeout", "probe.response_after_cancel", "probe.duplicate_response", "probe.id_reused_after_completion", "probe.response_after_cancel_before_report"]),
-        "C06" => agent_plan("timing", 500_000, 10_000_000, thorough, vec!["probe.two_due_at_same_poll", "probe.poll_later_than_two_deadlines", "probe.wakeup_more_than_3600s_ahead", "probe.reconfigured_mid_schedule"]),
-        "C07" => agent_plan("forgery", 500_000, 10_000_000, thorough, vec!["probe.signed_request_no_remote_credentials", "probe.remote_credentials_changed_while_signed_outstanding", "probe.mixed_integrity_pair"]),
-        "C15" => agent_plan("balanced", 500_000, 10_000_000, thorough, vec!["probe.incoming_request_with_outstanding_id"]),
-        "C18" => agent_plan("balanced", 500_000, 10_000_000, thorough, vec!["probe.two_due_at_same_poll", "probe.poll_later_than_two_deadlines"]),
+        "C05" => agent_plan("balanced", 300_000, 8_000_000, thorough, vec!["probe.two_due_at_same_poll", "probe.response_after_timeout", "probe.response_after_cancel", "probe.duplicate_response", "probe.id_reused_after_completion", "probe.response_after_cancel_before_report"]),
+        "C06" => agent_plan("timing", 300_000, 8_000_000, thorough, vec!["probe.two_due_at_same_poll", "probe.poll_later_than_two_deadlines", "probe.wakeup_more_than_3600s_ahead", "probe.reconfigured_mid_schedule"]),
+        "C07" => agent_plan("forgery", 300_000, 8_000_000, thorough, vec!["probe.signed_request_no_remote_credentials", "probe.remote_credentials_changed_while_signed_outstanding", "probe.mixed_integrity_pair"]),
+        "C15" => agent_plan("balanced", 300_000, 8_000_000, thorough, vec!["probe.incoming_request_with_outstanding_id"]),
+        "C18" => agent_plan("balanced", 300_000, 8_000_000, thorough, vec!["probe.two_due_at_same_poll", "probe.poll_later_than_two_deadlines"]),
         "C20" => {
             // the replays need a single recorded call history: agent scenario only
-            let mut p = agent_plan("balanced", 80_000, 1_200_000, thorough, vec!["probe.two_due_at_same_poll"]);
+            let mut p = agent_plan("balanced", 60_000, 1_200_000, thorough, vec!["probe.two_due_at_same_poll"]);
             p.batches.truncate(1);
             p
         }
@@ -111,7 +111,7 @@ pub fn plan(prop: &str, thorough: bool) -> Option<Plan> {
         ),
         "C02" => codec_plan(
             "exploration",
-            vec![b("wire", "baseline", 250_000, 3_000_000, thorough), b("wire", "faults", 500_000, 8_000_000, thorough), b("wire", "hostile", 400_000, 6_000_000, thorough), b("tailsplice", "default", 150_000, 2_000_000, thorough)],
+            vec![b("wire", "baseline", 250_000, 3_000_000, thorough), b("wire", "faults", 500_000, 8_000_000, thorough), b("wire", "hostile", 400_000, 6_000_000, thorough), b("tailsplice", "default", 150_000, 2_000_000, thorough), b("wire", "bigbuf", 2_000, 40_000, thorough)],
             "each evaluation is one simulated delivery sequence (see C01) whose every delivery is judged by the differential oracle: accept <=> reference decoder accepts (over-long buffers: refusal, or behaviour identical to the buffer cut to its declared length); on reject the named cause must be one of the defects present (byte counts where the property pins them); on accept class, method, transaction id, the exposed attribute sequence and first-match lookups must equal the reference view; fault-free (baseline) and fault-injecting profiles are separate batches; non-trivial = at least one fault fired or the message has attributes; distinct = distinct event-log hash",
             vec!["probe.buffer_longer_than_declared_length", "probe.both_integrity_attributes_and_fingerprint"],
         ),
@@ -129,13 +129,13 @@ pub fn plan(prop: &str, thorough: bool) -> Option<Plan> {
         ),
         "C10" => codec_plan(
             "exploration",
-            vec![b("tailsplice", "default", 1_200_000, 20_000_000, thorough), b("wire", "baseline", 150_000, 2_000_000, thorough)],
+            vec![b("tailsplice", "default", 1_200_000, 20_000_000, thorough), b("wire", "baseline", 150_000, 2_000_000, thorough), b("wire", "bigbuf", 2_000, 40_000, thorough)],
             "each run: (1) a foreign-peer message with 0..4 ordinary attributes and a drawn order/subset of {MI, MI-SHA256 (16..32 B), FP} with right or wrong MACs (sometimes an ordinary attribute smuggled in after the integrity attribute); (2) a library-built signed message whose bytes after the first integrity attribute are replaced four times by an on-path attacker (re-fingerprinted); every accepted buffer's iteration and lookups are compared with the reference exposure list, FINGERPRINT must be exposed whenever present, the attribute validate_integrity reports must be exposed, and the exposed prefix must be identical before and after the rewrite; evaluations = buffers judged; non-trivial = all (each has a tail or a rewrite); distinct = distinct buffers by hash",
             vec!["probe.validate_integrity_ok"],
         ),
         "C14" => codec_plan(
             "exploration",
-            vec![b("tcpstream", "random", 800_000, 12_000_000, thorough), b("tcpstream", "sweep", 15_000, 200_000, thorough), b("tcpstream", "lifetime", 1, 8, thorough)],
+            vec![b("tcpstream", "random", 200_000, 6_000_000, thorough), b("tcpstream", "sweep", 15_000, 200_000, thorough), b("tcpstream", "lifetime", 1, 8, thorough)],
             "lifetime profile: one long-lived connection per evaluation, more than 2^32 bytes (65 600 maximum-size frames) through a single TcpBuffer with chunking variations along the way and densely around the 2^31/2^32 cumulative-byte marks; random profile: 1..3 connections one after the other (the previous buffer dropped, possibly with unread bytes), each one stream of 1..6 frames (lengths 0..3, around 255/256, up to 65535; payloads that look like length prefixes) cut into segments (1-byte, all at once, 1..3 bytes, random) with push/pull interleavings (pull before data, drain after each push, random pulls, single pull per push, drain only at the end, repeated pulls on an incomplete frame) and an optional connection cut, every pull compared with the frame model; sweep profile: for each drawn stream of <= 3 frames and <= 12 bytes ALL 2^(n-1) segmentations x {drain after each push, drain at end} (evaluations counts each pattern); non-trivial = >= 2 segments or >= 2 frames; distinct = distinct event-log hash / distinct swept stream",
             vec![],
         ),
